@@ -326,6 +326,17 @@ func (ka *eccKeyAgreementGM) generateServerKeyExchange(config *Config, signCert,
 	if !ok {
 		return nil, errors.New("tls: certificate private key does not implement crypto.Signer")
 	}
+	// The signature is an SM2 signature, made with nil SignerOpts: refuse any other key (an RSA
+	// key dereferences the nil options and panics).
+	switch pub := priv.Public().(type) {
+	case *sm2.PublicKey:
+	case *ecdsa.PublicKey:
+		if pub.Curve != sm2.P256Sm2() {
+			return nil, errors.New("tls: the GMSSL signing certificate needs an SM2 key, not an ECDSA key on another curve")
+		}
+	default:
+		return nil, errors.New("tls: the GMSSL signing certificate needs an SM2 key")
+	}
 	sig, err := priv.Sign(config.rand(), digest, nil)
 	if err != nil {
 		return nil, err
